@@ -20,6 +20,7 @@ from __future__ import annotations
 import asyncio
 import hashlib
 import os
+import re
 import shutil
 import sys
 import tempfile
@@ -403,7 +404,7 @@ def install_patches():
                 rc=int(rc.value),
                 draining=bool(scheduler.draining),
                 ran=int(scheduler.run_counter),
-                summary=CUR.__dict__.pop("_summary", None) or {"ntotal": 0, "attr_sum": 0, "cyclic": 0, "attr_unique": True},
+                summary=CUR.__dict__.pop("_summary", None) or {"ntotal": 0, "attr_sum": 0, "cyclic": 0, "attr_unique": True, "shown_sum": 0},
                 disk=_disk_event(CUR.world.snapshot()),
             )
         return rc
@@ -475,6 +476,9 @@ def _summary_dict(s) -> dict:
     }
     for name in ("failed", "cyclic", "deferred", "other", "runnable"):
         d[name] = other(getattr(s, name))
+    # what the user is shown: the rows of the two tables, their "hidden" remainders and the buckets
+    d["shown_sum"] = (sum(r[3] for r in d["inputs"]) + d["ninputs_hidden_blocked"] + sum(r[3] for r in d["resources"])
+                      + d["nresources_hidden_blocked"] + sum(d[name] for name in ("failed", "cyclic", "deferred", "other", "runnable")))
     if hasattr(s, "attributed_totals"):
         try:
             d["attributed"] = {k: int(v) for k, v in s.attributed_totals.items()}
@@ -923,7 +927,10 @@ def run_serve(
         cause = exc.__cause__
         if cause is not None:
             res.exc += f" <- {type(cause).__name__}: {cause}"
-        ses.emit("director_exc", exc=type(exc).__name__, cause="NULL" if cause is None else type(cause).__name__, msg=res.exc[:800])
+        # the step whose completion was refused because its outputs are BUILT already (a second completion)
+        m2 = re.search(r"Exception in task RUN: (.+?) <- ConsistencyError: Unexpected file hash update: cause=SUCCEEDED .*state=BUILT", res.exc)
+        ses.emit("director_exc", exc=type(exc).__name__, cause="NULL" if cause is None else type(cause).__name__, msg=res.exc[:800],
+                 second_completion_of=m2.group(1) if m2 else "")
     finally:
         CUR = None
         try:
